@@ -38,6 +38,28 @@ def judge_diff(val, base, d):
     if not pyspec.strict_eq(rt, d): return 'diff-json-roundtrip-changes', {'diff': d}
     return None, None
 
+
+def crafted_decision_triples():
+    """merges in which decisions are pushed up / re-bundled by a strategy (record-conflict on metadata): a list under a
+    metadata dict edited by both sides without conflict, next to a genuine conflict in the same dict -- at notebook and
+    at cell level -- plus the one-sided variants"""
+    out = []
+    def nb(md_nb, md_cell):
+        return {'cells': [{'cell_type': 'code', 'execution_count': 1, 'metadata': md_cell, 'outputs': [], 'source': 'x = 1'}],
+                'metadata': md_nb, 'nbformat': 4, 'nbformat_minor': 4}
+    edits = [(['b', 'c'], ['a', 'b', 'c', 'd']), (['a', 'b', 'c', 'x'], ['a', 'b']), (['a', 'c'], ['a', 'b', 'c', 'e', 'f']),
+             (['a', 'b', 'c'], ['a', 'b', 'c', 'd']), (['b', 'c'], ['a', 'b', 'c'])]
+    for level in ('cell', 'nb'):
+        for lt, rt in edits:
+            for conflict in (True, False):
+                def md(tags, owner):
+                    m = {'tags': list(tags), 'owner': owner, 'nested': {'lst': list(tags), 'v': owner}}
+                    return m
+                b = md(['a', 'b', 'c'], 'base'); l = md(lt, 'local' if conflict else 'base'); r = md(rt, 'remote' if conflict else 'base')
+                if level == 'cell': out.append((nb({}, b), nb({}, l), nb({}, r)))
+                else: out.append((nb(b, {}), nb(l, {}), nb(r, {})))
+    return out
+
 def run(tier, seed):
     chk = core.Check(PROP, tier, seed)
     b = core.build()
@@ -47,7 +69,7 @@ def run(tier, seed):
     ngen, nnb, ntri = (1200, 220, 60) if tier == 'quick' else (20000, 3000, 600)
     gpairs = [genjson.gen_pair(r, depth=r.choice([2, 3, 4])) for _ in range(ngen)]
     npairs = gennb.crafted_mime_pairs() + [gennb.gen_pair(r, rich=(i % 2 == 0)) for i in range(nnb)]
-    triples = [gennb.gen_triple(r, rich=(i % 3 != 0)) for i in range(ntri)]
+    triples = crafted_decision_triples() + [gennb.gen_triple(r, rich=(i % 3 != 0)) for i in range(ntri)]
     # bases that still carry a (possibly emptied) conflict record from an earlier merge, conflicting again on metadata
     for i in range(max(6, ntri // 10)):
         x = gennb.gen_notebook(r, rich=False)
